@@ -183,8 +183,22 @@ func (c *concretiser) elem(e AElem) AElem {
 	return out
 }
 
+// kind maps the abstract rule verb to a concrete one, consistently within a case: the model's "GET" stands for any
+// concrete verb a rule can be registered under (standard ones and a custom kind).
+func (c *concretiser) kind(k string) string {
+	if k != "GET" {
+		return k
+	}
+	if v, ok := c.m["kind:GET"]; ok {
+		return v
+	}
+	v := []string{"GET", "GET", "PUT", "DELETE", "PATCH", "POST", "LIST"}[c.r.Intn(7)]
+	c.m["kind:GET"] = v
+	return v
+}
+
 func (c *concretiser) rule(r ARule) ARule {
-	out := ARule{Kind: r.Kind, M: r.M, Tmpl: ATmpl{Segs: []AElem{}}}
+	out := ARule{Kind: c.kind(r.Kind), M: r.M, Tmpl: ATmpl{Segs: []AElem{}}}
 	for _, e := range r.Tmpl.Segs {
 		out.Tmpl.Segs = append(out.Tmpl.Segs, c.elem(e))
 	}
@@ -596,7 +610,13 @@ func runRouterCase(c RCase, seed int64) ([]interface{}, map[string]interface{}) 
 		// the verb is part of the rule: HEAD is not GET, and a seeded further verb (other standard ones, a custom
 		// one, a lower-case spelling) must only reach rules of its own kind or '*'
 		extra := []string{"PUT", "DELETE", "PATCH", "OPTIONS", "get", "LIST", "TRACE", "Get"}
-		kinds = []string{"GET", "POST", "HEAD", extra[r.Intn(len(extra))]}
+		own := cz.kind("GET") // the verb this case's rules are registered under
+		kinds = []string{own, "HEAD", extra[r.Intn(len(extra))]}
+		for _, k := range []string{"GET", "POST"} {
+			if k != own {
+				kinds = append(kinds, k)
+			}
+		}
 	}
 	paths := make([][]ATok, 0, len(c.Paths)+8)
 	for _, p := range c.Paths {
